@@ -188,6 +188,7 @@ def shard(args):
     path = os.path.join(wd, 'b%d.hxb' % s)
     hxb.write_batch(path, cases)
     res = fw.run_hx([bdir + '/hx', 'run', path, '--crash-dir', wd], timeout=7200)
+    fw.discard(path)
     out = dict(viol=[], crashes=res['crashes'], hung=res['hung'], n=0, distinct=set(), stats=None, samples=[], monitor=[], trig={}, variants=set())
     for l in res['lines']:
         if l.startswith('S '):
@@ -230,7 +231,7 @@ def run(tier):
     wd = fw.workdir('C11')
     fw.replay_dir('C11')
     n = SIZES[tier]
-    nsh = fw.NPROC
+    nsh = fw.nshards(n, SIZES['quick'])
     outs = fw.pool_map(shard, [(bdir, wd, fw.seed(), s, nsh, n) for s in range(nsh)])
     tot = 0
     distinct, variants, samples, stats, trig = set(), set(), [], [], {}
